@@ -17,21 +17,29 @@ from .. import algs, fpx
 from ..translate import ir
 from . import c01
 
-THEOREMS = ["generated_wf", "conj_square_c64", "conj_square_c128", "even_square_real", "even_absolute_real", "soft_sign_laws"]
+THEOREMS = ["generated_wf", "conj_square_c64", "conj_square_c128", "even_square_real", "even_absolute_real", "soft_sign_laws",
+            "symmetry_analyser_sound", "conj_descs", "odd_descs", "abs_descs", "conj_symmetric", "odd_symmetric", "absolute_symmetric"]
 SEARCHED = ["conjugate symmetry of the 13 libm-based complex algorithms", "oddness of asin/asinh/atan/atanh (complex, real)", "rotation identities asinh/asin, atan/atanh, acosh/acos",
             "imag acos = -imag asin"]
 TRUSTED = [
     "Lean 4 kernel; axioms propext, Classical.choice, Quot.sound only",
     "translator + generated-implementation tie as in C01/C02 (3-way bit-level correspondence each run)",
+    "conj_symmetric/odd_symmetric/absolute_symmetric assume of the transcendental oracle only LibOK: its results do not depend on NaN payload/sign, and "
+    "atan2(-a, b) = -atan2(a, b) bit for bit (C99 Annex F); numpy.arctan2 is sampled against this each run (obligation libm-assumption); in the search "
     "platform libm oddness/evenness (atan2, sin, cos, log1p, ...) is observed, not assumed",
 ]
 LEVEL_TEXT = ("Partial proof. Theorems (bit-exact softfloat, regenerated programs, EVERY input pattern incl. NaN/inf/zeros/subnormals): complex `square` commutes with "
               "conjugation (real parts identical, imaginary parts negated, NaN matching NaN; complex64 and complex128), real `square` and `absolute` are even — from sign laws "
               "of the softfloat proved for every format (|-a| = |a|, a+b = b+a, ab = ba, a-(-b) = a+b, (-a)b = -(ab) up to the single NaN). "
-              "The symmetries of the libm-based algorithms (conjugation, oddness, rotations, acos/asin) and evenness of complex square are decided by oracle-free "
+              "Through a symmetry analyser proved sound once for every program, format and oracle (symmetry_analyser_sound: an abstract interpretation that tracks, per node, "
+              "same / negated / boolean-negated under a sign substitution of the inputs, with the rules for abs, mul, div, comparisons against 0, select on a flipped "
+              "condition between x and -x, atan2) and kernel-evaluated on the regenerated programs: f(conj z) = conj f(z) for acos, acosh, asin, asinh, sqrt, absolute and "
+              "f(-z) = -f(z) for asin, asinh (complex64 and complex128), for EVERY input whose negated parts are neither NaN nor +-0, every oracle satisfying LibOK, "
+              "whenever the evaluations are defined. "
+              "The remaining identities (conj/odd for atan, atanh, log*, exp, real asin/asinh; rotations; acos/asin; evenness of complex square) are decided by oracle-free "
               "bit-pattern search on the generated implementation.")
-LEVEL_NOTE = "Symmetries of libm-based algorithms: search only (bit patterns from the same generated implementation)."
-TECHNIQUE = "Lean 4 proof of softfloat sign laws + kernel-checked program identities (square/absolute) ; oracle-free bit-pattern search for the rest"
+LEVEL_NOTE = "Proved: square/absolute (all inputs), conj symmetry of 6 and oddness of 2 libm-based complex algorithms (non-zero non-NaN negated parts). Search only: the other identities."
+TECHNIQUE = "Lean 4: softfloat sign laws, a verified symmetry analyser (abstract interpretation, soundness theorem) kernel-evaluated on programs regenerated from source; oracle-free bit-pattern search for the rest"
 
 ODD_C = ["asin", "asinh", "atan", "atanh"]
 ODD_R = ["asin", "asinh"]
@@ -213,8 +221,11 @@ def work(task):
 def generate(ctx):
     # the programs are those of C01/C02 (regenerated there); C03 re-emits the ones its theorems are about
     progs = {}
-    for name, dts in (("square", ["complex64", "complex128", "float32", "float64"]), ("absolute", ["float32", "float64"])):
-        for dt in dts:
+    for name in algs.COMPLEX:
+        for dt in ("complex64", "complex128"):
+            progs[f"{name}_{dt}"] = algs.build(name, dt)["prog"]
+    for name in algs.REAL:
+        for dt in ("float32", "float64"):
             progs[f"{name}_{dt}"] = algs.build(name, dt)["prog"]
     lines = ["/- GENERATED by fav/props/c03.py from /repo's current source; do not edit. -/", "import FAVerif.IR.Prog", "",
              "namespace FAVerif.Gen.C03", "open FAVerif.IR", ""]
@@ -228,11 +239,31 @@ def generate(ctx):
     return progs
 
 
+def check_libok(ctx, n=20000):
+    """LibOK.atan2_odd sampled on the platform libm the generated implementation calls."""
+    bad = []
+    rng = numpy.random.default_rng(ctx.seed)
+    for fmt, w, ut in (("float32", 32, numpy.uint32), ("float64", 64, numpy.uint64)):
+        a = rng.integers(0, 1 << (w - 1), size=n, dtype=ut).view(fpx.NPF[fmt])
+        b = rng.integers(0, 1 << w - 1, size=n, dtype=ut).view(fpx.NPF[fmt]) * rng.choice([-1, 1], size=n).astype(fpx.NPF[fmt])
+        with numpy.errstate(all="ignore"):
+            r1 = numpy.arctan2(a, b)
+            r2 = numpy.arctan2(-a, b)
+        ok = (r2.view(ut) == (-r1).view(ut)) | (numpy.isnan(r1) & numpy.isnan(r2))
+        for i in numpy.nonzero(~ok)[0][:3]:
+            bad.append(dict(fmt=fmt, a=int(a.view(ut)[i]), b=int(b.view(ut)[i])))
+        ctx.evaluations += n
+    ctx.obligation("libm-assumption: numpy.arctan2(-a, b) == -numpy.arctan2(a, b) bit for bit (LibOK.atan2_odd) on sampled patterns", not bad, kind="correspondence")
+    return bad
+
+
 def run(ctx):
     ctx.rule = ("per dtype: the union of the C01 input streams of asin, atanh, log1p, sqrt, exp (log-uniform, mid-range, +-4 ULP around thresholds, special lattice incl. zeros "
                 "and infinities); every identity evaluated on every point outside its branch-cut exclusion; non-trivial = an identity instance checked; distinct by (identity, input)")
     generate(ctx)
     broken = ctx.lean_stage(["FAVerif.Props.C03"], THEOREMS)
+    if check_libok(ctx):
+        broken.append(ctx.broken("libm-assumption:atan2_odd", "numpy.arctan2 is not odd in its first argument on this platform"))
     n = ctx.scale(1500, 200000)
     with multiprocessing.Pool(2) as pool:
         results = pool.map(work, [("complex64", n, ctx.seed), ("complex128", n, ctx.seed)])
